@@ -24,13 +24,15 @@ from .scenario import NONE, TooComplex, Walker, const, private_callees
 
 LEVEL = ("resolver convergence only (output equality of two runs is not decided): for responses the statements that only run for a "
          "reference hand exactly one variable (the resolved component) to the shared code, which never asks again whether it was a "
-         "reference; the raw parameter / request body flows only into its resolver and an error result leaves before the shared "
-         "code reads the component; the chain loop reads nothing that is a stale snapshot of a variable it advances; the "
+         "reference; the raw parameter / request body flows only into its resolver (through helpers and generators of the region) and an error "
+         "result leaves - returned, or yielded by a generator whose consumer returns it - before the shared code reads the component; the chain loop reads nothing that is a stale snapshot of a variable it advances; the "
          "field-by-field copy of a component parameter covers every attribute read downstream and hands on the component's own values (no "
          "dump / re-validation in between); the defaulted parameters of the schema descent are forwarded at every level; every reference string goes "
          "through parse_reference_path, on whose accepting paths every non-fragment URL component is empty; when the component is "
          "missing from its table every feasible path of the resolver that consulted the table leaves with an error value (scenario "
-         "walker); a schema reference evolves only name/required/python_name/default and records the dependency.")
+         "walker); a schema reference evolves only name/required/python_name/default and records the dependency; "
+         "the reference discriminator of the document model decides by the presence of the `$ref` key, never by its value (truth table); "
+         "the recursive walks over the reference registry / dependency graph have a ranking argument (shared with C06).")
 
 URL_FIELDS = ("scheme", "netloc", "path", "params", "query", "fragment")  # field order of urllib.parse.ParseResult
 USE_SITE_ATTRS = {"required", "name", "python_name", "default"}
@@ -86,18 +88,19 @@ def run(rep: Report, ctx: Any) -> str:
     pfields = set(ix.all_fields(pcls))
     raw_reads: list[tuple[FuncInfo, ast.Name]] = []
     n_iter = 0
-    for g in region(ix, ap):
+    ap_region = region(ix, ap)
+    for g in ap_region:
         glc = Locals(g.node)
         for name, ds in glc.defs.items():
             for kind, st, v in ds:
-                if kind == "for" and v is not None and _denotes(v, glc, "data.parameters"):
+                if kind == "for" and v is not None and _denotes_in(ap_region, g, v, glc, "data.parameters"):
                     n_iter += 1
                     if isinstance(st, ast.comprehension):
                         raw_reads += [(g, x) for x in _comprehension_reads(g.node, st, name)]
                     else:
                         raw_reads += [(g, x) for _, x in _reached_reads(cfg_of(g, cfgs), st, name)]
     rep.require(n_iter, "iteration over data.parameters in the region of add_parameters")
-    not_resolved = [norm(_direct_arg_of(g.node, x) or x)[:60] for g, x in raw_reads if not _is_call_to(_direct_arg_of(g.node, x), {"parameter_from_reference"})]
+    not_resolved = [t for g, x in raw_reads for t in _unresolved_uses(ap_region, g, x, {"parameter_from_reference"})]
     # the resolver's result: tested for being an error on every path to a read of a Parameter attribute
     gate_ok, attr_reads, n_resolve, ungated = _gated_uses(ix, ap, cfgs, {"parameter_from_reference"}, pfields)
     rep.require(n_resolve, "statement binding the result of parameter_from_reference in the region of add_parameters")
@@ -180,7 +183,7 @@ def run(rep: Report, ctx: Any) -> str:
               "dump is validated again by field name and loses every nested `$ref` (the reference discriminator reads the alias), so the "
               "parameter used by reference is typed differently from the same parameter written inline", where(copies[0][0], copies[0][1]),
               lhs=changed, rhs="<attribute>=<component>.<attribute> (or a value the caller gives) for every attribute read downstream")
-    rep.floor("parameter_attributes_read", len(read), 4)
+    rep.floor("parameter_attributes_read", len(read), 2)
 
     # ---- R20.3 -------------------------------------------------------------------------------------------------------------
     prp = ix.func("schemas.parse_reference_path")
@@ -363,7 +366,7 @@ def run(rep: Report, ctx: Any) -> str:
                       "a position that may hold a reference is declared as a plain union with Reference: pydantic's smart matching can decode "
                       "a `$ref` with sibling keys as the other member, and the reference is lost without a diagnostic", f"{m.rel}:{getattr(ann, 'lineno', 0)}",
                       lhs=norm(ann)[:80], rhs="ReferenceOr[...]")
-    rep.floor("reference_positions_in_document_model", n_pos, 20)
+    rep.floor("reference_positions_in_document_model", n_pos, 15)
 
     # ---- R20.8 -------------------------------------------------------------------------------------------------------------
     # The schema descent threads two things through every level that decide how references inside a schema are treated: whether the
@@ -405,6 +408,73 @@ def run(rep: Report, ctx: Any) -> str:
                   "roots than the same schema written inline", where(lost[0][1], lost[0][0]) if lost else "", lhs=[norm(c)[:80] for c, _ in lost],
                   rhs=f"{prm}=<the caller's {prm}>")
     rep.floor("descent_parameters_forwarded", len(forwards), 7)
+
+    # ---- R20.10 ------------------------------------------------------------------------------------------------------------
+    # R20.7 makes every position decode through the discriminated union; which member a raw object becomes is then decided by the
+    # discriminator function alone.  "All malformed reference strings" must still be references (so that the item that uses them gets
+    # the diagnostic): a mapping that HAS the key `$ref` is a Reference whatever is stored under it - empty, null, not a string - and
+    # whatever else the mapping holds.  Decided as a truth table over the atoms of the discriminator's tests: with "is a mapping" and
+    # "has the key" true and every atom that depends on the VALUE under the key (`.get("$ref")`, `[\"$ref\"]`) free, every path that can
+    # be taken returns the tag attached to Reference; likewise an object that already is a Reference instance.  Atoms the rule cannot read
+    # make the verdict an analysis error, not a finding.
+    rep.rule("R20.10", "the reference discriminator of the document model decides by the PRESENCE of the `$ref` key (and by being a "
+                       "Reference instance), never by the value stored under it: under every assignment of its value-dependent atoms a "
+                       "mapping that has the key gets the tag of Reference")
+    n_disc = 0
+    for m in doc_model:
+        for ann in [n for n in ast.walk(m.tree) if isinstance(n, ast.Subscript) and (dotted(n.value) or "").rsplit(".", 1)[-1] == "Annotated"]:
+            parts = list(ann.slice.elts) if isinstance(ann.slice, ast.Tuple) else [ann.slice]
+            discs = [c for x in parts[1:] for c in ast.walk(x) if isinstance(c, ast.Call) and call_name(c).rsplit(".", 1)[-1] == "Discriminator"]
+            if not discs or "Reference" not in {nm for nm, _ in _type_names(parts[0])}:
+                continue
+            ref_tags = {c.args[0].value for inner in ast.walk(parts[0]) if isinstance(inner, ast.Subscript) and
+                        (dotted(inner.value) or "").rsplit(".", 1)[-1] == "Annotated" and isinstance(inner.slice, ast.Tuple) and
+                        (dotted(inner.slice.elts[0]) or "").rsplit(".", 1)[-1] == "Reference"
+                        for x in inner.slice.elts[1:] for c in ast.walk(x)
+                        if isinstance(c, ast.Call) and call_name(c).rsplit(".", 1)[-1] == "Tag" and c.args and isinstance(c.args[0], ast.Constant)}
+            for d in discs:
+                fn_name = dotted(d.args[0]) if d.args else None
+                if fn_name is None or fn_name not in m.functions:
+                    continue        # a field-name discriminator (string) does not inspect raw objects
+                n_disc += 1
+                rep.require(len(ref_tags) == 1, f"the tag attached to Reference in the union discriminated by {fn_name}")
+                verdict = _discriminates_by_presence(m.functions[fn_name], next(iter(ref_tags)))
+                rep.require(verdict is not None and verdict[0] != "unreadable",
+                            f"tests of {fn_name} readable as presence of / value under the `$ref` key ({verdict[1] if verdict else 'no tagged return'})")
+                rep.check(verdict[0] == "ok", "R20.10", f"{m.name.replace('openapi_python_client.', '')}.{fn_name}::reference-by-key-presence",
+                          f"an object that has the `$ref` key (or is a Reference) is not always decoded as a Reference ({verdict[1]}): a "
+                          "malformed reference (empty / null / non-string value) becomes the other member - a silent Any in a schema "
+                          "position, a validation failure of the whole document elsewhere - instead of a diagnostic for the item that uses it",
+                          where(m.functions[fn_name], m.functions[fn_name].node), lhs=verdict[1], rhs=f"returns {next(iter(ref_tags))!r} whenever the key is present")
+    rep.floor("reference_discriminators", n_disc, 1)
+
+    # ---- R20.11 ------------------------------------------------------------------------------------------------------------
+    # "A circular reference ... affects nothing else": the walks over the reference registry and the dependency graph (class lookup
+    # through references, propagation of a removal to the dependants) run on graphs the document can make cyclic, so every recursive
+    # cycle of the call graph that reads those registries needs a ranking argument (a visited mark made BEFORE the recursion, structural
+    # descent, ...).  C06 decides exactly this for every recursive cycle (R06.4); it is claimed here, under C20's id and with C06's
+    # construct keys, for the cycles that walk the reference graph.
+    from .c06 import _cycle_pattern, _sccs
+
+    rep.rule("R20.11", "every recursive cycle of the parser that reads the reference registry (`classes_by_reference`) or the dependency "
+                       "graph (`dependencies`) terminates on cyclic reference graphs: it has one of the ranking arguments of C06's R06.4 "
+                       "(structural descent | fresh element | removal before recursing | growing bounded set | progress rounds)")
+    it, _ = ctx.flow
+    edges = {a: {b for b in bs if b in it.func_by_qual} for a, bs in it.call_edges.items()}
+    rec = [sorted(c) for c in _sccs(edges) if len(c) > 1 or next(iter(c)) in edges.get(next(iter(c)), ())]
+    n_walks = 0
+    for comp in sorted(rec):
+        if not any(isinstance(n, ast.Attribute) and n.attr in ("classes_by_reference", "dependencies") for q in comp for n in ast.walk(it.func_by_qual[q].node)):
+            continue
+        n_walks += 1
+        names = [q.replace("openapi_python_client.", "") for q in comp]
+        pat, why = _cycle_pattern(ix, it, comp, edges)
+        rep.check(pat is not None, "R20.11", "cycle{" + ",".join(n.rsplit(".", 1)[-1] for n in names)[:120] + "}",
+                  f"the recursive walk {names[:4]} over the reference graph has no ranking argument ({why}): on a cyclic reference / "
+                  "dependency graph it does not terminate, so a circular (or failing, recursive) reference takes the whole run down "
+                  "instead of producing a diagnostic for the items involved", where="", lhs=names[:6],
+                  rhs="structural | fresh element | removal before recursing | growing bounded set | progress rounds")
+    rep.floor("recursive_walks_over_reference_graph", n_walks, 1)
 
     from .c08 import check_no_alias
 
@@ -461,6 +531,47 @@ def _denotes(e: ast.AST, lc: Locals, text: str, depth: int = 0) -> bool:
         vs = lc.values_of(e.id)
         return bool(vs) and all(k == "assign" for k, _, _ in lc.defs[e.id]) and all(_denotes(v, lc, text, depth + 1) for v in vs)
     return False
+
+
+def _denotes_in(reg: "list[FuncInfo]", g: FuncInfo, e: ast.AST, lc: Locals, text: str, depth: int = 0) -> bool:
+    """_denotes, followed through the parameters of the region's helpers: inside a helper the expression may be a parameter that every
+    call of the helper in the region binds to `text` (the root of the region reads `text` itself)"""
+    if norm(e) == text and g is reg[0]:
+        return True
+    if not isinstance(e, ast.Name) or depth > 3:
+        return False
+    if e.id in lc.defs:
+        vs = lc.values_of(e.id)
+        return bool(vs) and all(k == "assign" for k, _, _ in lc.defs[e.id]) and all(_denotes_in(reg, g, v, lc, text, depth + 1) for v in vs)
+    if e.id not in {a.arg for a in g.params} or g is reg[0]:
+        return False
+    sites = [(h, c) for h in reg if h is not g for c in calls_in(h.node) if call_name(c).rsplit(".", 1)[-1] == g.name]
+    handed = []
+    for h, c in sites:
+        hlc = Locals(h.node)
+        passed = _passed(c, g, hlc)
+        v = passed.get(e.id) if passed is not None else None
+        handed.append(v is not None and _denotes_in(reg, h, v, hlc, text, depth + 1))
+    return bool(handed) and all(handed)
+
+
+def _unresolved_uses(reg: "list[FuncInfo]", g: FuncInfo, x: ast.Name, resolvers: set[str], depth: int = 0) -> list[str]:
+    """what a read of the raw (possibly referenced) item is used for other than being resolved: nothing when it is directly an argument
+    of a resolver, or of a helper of the region in which the parameter it is bound to is, in turn, only ever resolved"""
+    call = _direct_arg_of(g.node, x)
+    if _is_call_to(call, resolvers):
+        return []
+    if call is not None and depth < 3:
+        for h in reg:
+            if h is g or call_name(call).rsplit(".", 1)[-1] != h.name:
+                continue
+            passed = _passed(call, h, Locals(g.node))
+            prm = next((k for k, v in (passed or {}).items() if v is x), None)
+            if prm is None or prm in {n.id for n in ast.walk(h.node) if isinstance(n, ast.Name) and isinstance(n.ctx, ast.Store)}:
+                break
+            reads = [n for n in ast.walk(h.node) if isinstance(n, ast.Name) and n.id == prm and isinstance(n.ctx, ast.Load)]
+            return [t for n in reads for t in _unresolved_uses(reg, h, n, resolvers, depth + 1)] if reads else []
+    return [norm(call or x)[:60]]
 
 
 def _direct_arg_of(fn: ast.AST, node: ast.AST) -> ast.Call | None:
@@ -576,12 +687,17 @@ def _only_via(cfg: CFG, branches: list[tuple[ast.If, str]]) -> set[object]:
 
 def _arm_ends_in_error(cfg: CFG, ifn: ast.If, arm: str, errs: set[str]) -> bool:
     """every way out of the function from the given arm is the return of an error value (or a raise)"""
+    def hands_out_error(n: object) -> bool:
+        # in a generator the error value leaves through `yield <error>`: what the consumer of the generator gets instead of an item
+        return isinstance(n, ast.Expr) and isinstance(n.value, ast.Yield) and _is_error_value(n.value.value, errs)
+
     entries = [s for s in cfg.succ.get(ifn, ()) if (id(ifn), id(s)) in _arm_edges(cfg, ifn, arm)]
-    nodes = _reach(cfg, entries)
+    nodes = _reach(cfg, entries, stop=hands_out_error)
     if EXIT in entries:
         return False
-    exits = [n for n in nodes if isinstance(n, ast.stmt) and EXIT in cfg.succ.get(n, ())]
-    return bool(exits) and all(isinstance(n, ast.Raise) or (isinstance(n, ast.Return) and returns_error(n, errs)) for n in exits)
+    yields = [n for n in nodes if hands_out_error(n)]
+    exits = [n for n in nodes if isinstance(n, ast.stmt) and EXIT in cfg.succ.get(n, ()) and not hands_out_error(n)]
+    return bool(exits or yields) and all(isinstance(n, ast.Raise) or (isinstance(n, ast.Return) and returns_error(n, errs)) for n in exits)
 
 
 # ---- flow of one binding ---------------------------------------------------------------------------------------------------
@@ -623,11 +739,14 @@ def _gated_uses(ix: Any, f: FuncInfo, cfgs: dict[str, CFG], producers: set[str],
     read: set[str] = set()
     n_prod = 0
     ungated: list[str] = []
-    for g in ([f] if own_only else region(ix, f)):
-        lc = Locals(g.node)
-        roots = {nm for nm, ds in lc.defs.items() for k, _, v in ds if k.startswith("assign") and isinstance(v, ast.Call) and _is_call_to(v, producers)}
-        if not roots:
-            continue
+    fns = [f] if own_only else region(ix, f)
+    # The result travels: a helper of the region that returns it (`return parameter_from_reference(...)`, `return <result>`) produces it
+    # for its callers, a generator of the region that yields it produces it for the loop that iterates the generator.  Found by fixpoint.
+    returning, yielding = set(producers), set()
+
+    def results_in(g: FuncInfo, lc: Locals) -> tuple[set[str], set[str]]:
+        roots = {nm for nm, ds in lc.defs.items() for k, _, v in ds if isinstance(v, ast.Call) and
+                 ((k.startswith("assign") and _is_call_to(v, returning)) or (k == "for" and _is_call_to(v, yielding)))}
         results = set(roots)
         changed = True
         while changed:  # plain copies of the result (`param = param_or_error`)
@@ -636,9 +755,30 @@ def _gated_uses(ix: Any, f: FuncInfo, cfgs: dict[str, CFG], producers: set[str],
                 if nm not in results and any(k == "assign" and isinstance(v, ast.Name) and v.id in results for k, _, v in ds):
                     results.add(nm)
                     changed = True
+        return roots, results
+
+    for _ in range(3):
+        for g in fns:
+            if g is f:
+                continue
+            _, res = results_in(g, Locals(g.node))
+            own = [n for s in cfg_of(g, cfgs).stmts() for n in walk_own(s)]
+
+            def carries(v: "ast.AST | None", res: set[str] = res) -> bool:
+                return (isinstance(v, ast.Name) and v.id in res) or (isinstance(v, ast.Call) and _is_call_to(v, returning))
+
+            if any(isinstance(n, ast.Return) and carries(n.value) for n in own):
+                returning.add(g.name)
+            if any(isinstance(n, ast.Yield) and carries(n.value) for n in own):
+                yielding.add(g.name)
+    for g in fns:
+        lc = Locals(g.node)
+        roots, results = results_in(g, lc)
+        if not roots:
+            continue
         cfg = cfg_of(g, cfgs)
         errs = error_names(g.node) | results
-        producing = [s for s in cfg.stmts() if any(_is_call_to(c, producers) for c in _own_calls(s)) and _stores(s) & roots]
+        producing = [s for s in cfg.stmts() if any(_is_call_to(c, returning | yielding) for c in _own_calls(s)) and _stores(s) & roots]
         n_prod += len(producing)
         gates = [(s, arm) for s in cfg.stmts() if isinstance(s, ast.If) for arm in _implied_arms(s.test, lambda a: _is_error_test(a, results))
                  if _arm_ends_in_error(cfg, s, arm, errs)]
@@ -833,6 +973,73 @@ def _possibly_true(cond: list[tuple[ast.expr, bool]], wanted: list[str]) -> tupl
         if all(bool_eval(t, env) is pol for t, pol in cond):
             can |= {w for w in wanted if env.get(w)}
     return can, other
+
+
+# ---- the reference discriminator ---------------------------------------------------------------------------------------------------------
+
+REF_KEY = "$ref"
+
+
+def _discriminates_by_presence(f: FuncInfo, ref_tag: str) -> "tuple[str, str] | None":
+    """('ok' | 'by-value' | 'unreadable', explanation) for a discriminator function; None when it has no path returning a tag"""
+    params = [a.arg for a in f.params]
+    if not params:
+        return None
+    obj = params[0]
+    expand = _Expander(Locals(f.node), set(), {})
+    paths: list[tuple[list[tuple[ast.expr, bool]], ast.expr | None, ast.Return]] = []
+    _return_paths(f.node.body, [], paths, expand)
+    if not paths:
+        return None
+
+    def kind(a: ast.expr) -> tuple[str, bool]:
+        """(role of the atom, polarity under which the role's fact holds)"""
+        if _isinstance_of(a, {obj}, lambda k: k in ("dict", "Mapping", "MutableMapping")):
+            return "mapping", True
+        if _isinstance_of(a, {obj}, lambda k: k == "Reference"):
+            return "instance", True
+        mentions = any(isinstance(x, ast.Constant) and x.value == REF_KEY for x in ast.walk(a))
+        if isinstance(a, ast.Compare) and len(a.ops) == 1 and isinstance(a.ops[0], (ast.In, ast.NotIn)) and isinstance(a.left, ast.Constant) and \
+                a.left.value == REF_KEY:
+            c = a.comparators[0]
+            if isinstance(c, ast.Call) and not c.keywords and ((isinstance(c.func, ast.Attribute) and c.func.attr == "keys" and not c.args) or
+                                                                (isinstance(c.func, ast.Name) and c.func.id in ("set", "list", "tuple", "frozenset") and len(c.args) == 1)):
+                c = c.func.value if isinstance(c.func, ast.Attribute) else c.args[0]
+            if isinstance(c, ast.Name) and c.id == obj:
+                return "present", isinstance(a.ops[0], ast.In)
+        if mentions and any((isinstance(x, ast.Call) and isinstance(x.func, ast.Attribute) and x.func.attr in ("get", "pop", "setdefault")) or
+                            isinstance(x, ast.Subscript) for x in ast.walk(a)):
+            return "value", True
+        return "unreadable", True
+
+    atoms: dict[str, tuple[str, bool]] = {}
+    for cond, _, _ in paths:
+        for t, _ in cond:
+            for a in _atom_nodes(t):
+                atoms.setdefault(norm(a), kind(a))
+    if len(atoms) > 10:
+        return "unreadable", "too many atoms"
+    names = list(atoms)
+    wrong: list[str] = []
+    for vals in itertools.product([False, True], repeat=len(names)):
+        env = dict(zip(names, vals))
+        fact = {role: {env[n] == pol for n, (r, pol) in atoms.items() if r == role} for role in ("mapping", "instance", "present")}
+        if any(len(v) > 1 for v in fact.values()):
+            continue            # two spellings of one fact disagree
+        mapping, instance, present = (next(iter(fact[r]), None) for r in ("mapping", "instance", "present"))
+        # scenario A: a mapping that has the key (it is not a Reference instance); scenario B: a Reference instance (not a mapping)
+        if not ((mapping is not False and instance is not True and present is not False and (mapping or present)) or
+                (instance is True and mapping is not True)):
+            continue
+        for cond, val, r in paths:
+            if all(bool_eval(t, env) is pol for t, pol in cond) and not (isinstance(val, ast.Constant) and val.value == ref_tag):
+                free = sorted(n for n, (role, _) in atoms.items() if role in ("value", "unreadable"))
+                wrong.append(f"returns {norm(val)} at line {r.lineno} when " + ", ".join(f"{n} is {env[n]}" for n in free or names))
+    if not wrong:
+        return "ok", ""
+    if any(role == "unreadable" for role, _ in atoms.values()):
+        return "unreadable", "; ".join(sorted(n for n, (role, _) in atoms.items() if role == "unreadable")[:3])
+    return "by-value", sorted(set(wrong))[0]
 
 
 # ---- calls: who is called, what is passed ---------------------------------------------------------------------------------------------
